@@ -83,12 +83,18 @@ package dns
 //@ func (compressionMap).valid [C03 C04]
 //@   ensures ret0 == (m.int != nil || m.ext != nil)
 //@   pure
+// key exactness: a name suffix is looked up, and stored, under exactly the string it was called with (no case
+// folding or other normalisation of compression-map keys: letter case of names is preserved on the wire)
 //@ func (compressionMap).find [C03 C04]
 //@   ensures hit: ret1 ==> 0 <= ret0 && ret0 < 16384
+//@   ensures keyext: m.ext != nil ==> ret1 == maphas(m.ext, s) && (ret1 ==> ret0 == mapget(m.ext, s))
+//@   ensures keyint: m.ext == nil ==> ret1 == maphas(m.int, s) && (ret1 ==> ret0 == mapget(m.int, s))
 //@   pure
 //@ func (compressionMap).insert [C03 C04]
 //@   requires 0 <= pos && pos < 16384 && (m.int != nil || m.ext != nil)
-//@   pure
+//@   ensures keyext: m.ext != nil ==> maphas(m.ext, s) && mapget(m.ext, s) == pos
+//@   ensures keyint: m.ext == nil ==> maphas(m.int, s) && mapget(m.int, s) == pos
+//@   modifies MS.mapLstringJint MS.mapLstringJuint16
 //@ func isRootLabel [C03 C04]
 //@   requires 0 <= off && off <= end && (bs == nil ==> end <= len(s)) && (bs != nil ==> end <= len(bs))
 //@   ensures bs == nil ==> ret0 == (end - off == 1 && s[off] == '.')
@@ -98,6 +104,7 @@ package dns
 //@ func packDomainName [C03 C04 C08]
 //@   requires 0 <= off
 //@   writes msg
+//@   modifies MS.mapLstringJint MS.mapLstringJuint16
 //@   ensures empty: len(s) == 0 ==> err == nil && off1 == off
 //@   ensures nofq:  len(s) > 0 && !IsFqdnSpec(s) ==> err != nil
 //@   ensures fail:  err != nil ==> off1 == len(msg) || off1 == off
@@ -139,6 +146,7 @@ package dns
 //@ func PackDomainName [C03 C04]
 //@   requires 0 <= off
 //@   writes msg
+//@   modifies MS.mapLstringJint@compression MS.mapLstringJuint16@compression
 //@   ensures empty: len(s) == 0 ==> err == nil && off1 == off
 //@   ensures nofq:  len(s) > 0 && !IsFqdnSpec(s) ==> err != nil
 //@   ensures acc:   !compress && err == nil && len(s) > 0 ==> ns63(s, 0, 0, false)
